@@ -32,7 +32,7 @@ def factorize_arrow_arr(
     name = get_array_name(arr)
     if isinstance(arr, pl.Series):
         arr = arr.to_arrow()
-    elif isinstance(arr, pd.Series):
+    elif isinstance(arr, (pd.Series, pd.Index)):
         arr = pa.Array.from_pandas(arr)
     elif isinstance(arr, pa.ChunkedArray):
         arr = arr.combine_chunks()
